@@ -80,3 +80,58 @@ func VpC07DirectiveLine() {
 	vpC07Compile(pre+s, false)
 	vp.Reached("end")
 }
+
+// VpC07ActionArgs: every action that takes an argument, with N arbitrary 7-bit bytes as (the
+// tail of) its argument, compiled and then driven through a full transaction.
+func VpC07ActionArgs() {
+	pres := []string{
+		"ctl:", "ctl:ruleRemoveById=", "ctl:ruleRemoveTargetById=1;", "ctl:ruleRemoveTargetByTag=t;", "ctl:auditLogParts=",
+		"ctl:requestBodyProcessor=", "ctl:ruleEngine=", "ctl:auditEngine=", "ctl:requestBodyAccess=", "ctl:forceRequestBodyVariable=",
+		"ctl:ruleRemoveByTag=", "ctl:ruleRemoveByMsg=", "ctl:responseBodyLimit=", "ctl:debugLogLevel=", "ctl:hashEngine=",
+		"expirevar:", "expirevar:tx.a=", "initcol:", "initcol:ip=", "setenv:", "setenv:a=", "redirect:", "status:", "severity:",
+		"skip:", "skipAfter:", "phase:", "t:", "exec:", "logdata:", "logdata:%{", "msg:", "tag:", "rev:", "ver:", "maturity:", "accuracy:",
+		"setvar:", "setvar:tx.", "setvar:!", "setvar:tx.a=%{", "capture,logdata:%{tx.", "multiMatch,t:", "chain,", "block,", "deny,status:",
+		"drop,", "pass,", "allow:", "nolog,", "auditlog,", "id:",
+	}
+	pre := pres[vp.Choice("action", vp.Param("ACTIONS", len(pres)))]
+	n := vp.Choice("len", vp.Param("N", 2)+1)
+	s := vp.String("arg", n)
+	vpC07NoLineBreak(s)
+	for i := 0; i < len(s); i++ {
+		vp.Assume(s[i] != '"')
+	}
+	vpC07Compile("SecRule ARGS \"@unconditionalMatch\" \"id:1,phase:1,pass,"+pre+s+"\"", true)
+	vp.Reached("end")
+}
+
+// VpC07OperatorArgs2: the remaining built-in operators with N arbitrary bytes as (the tail of)
+// their argument, compiled and then evaluated against a symbolic argument value.
+func VpC07OperatorArgs2() {
+	vpC07OperatorArgs([]string{
+		"@pm ", "@pm a ", "@strmatch ", "@endsWith ",
+		"@lt ", "@le %{", "@gt ", "@detectSQLi", "@detectXSS", "@validateUrlEncoding", "@validateUtf8Encoding", "@noMatch", "@unconditionalMatch",
+		"@ipMatchFromDataset ", "@pmFromDataset ", "@geoLookup", "@contains ", "@within ", "@streq %{tx.", "@validateByteRange 1-",
+		"@validateByteRange 1,", "@eq %{",
+	})
+}
+
+// VpC07OperatorArgsRx: the operators whose argument becomes a regular expression (compiled once
+// per concrete text: the engine splits on every symbolic pattern byte, and on every input byte
+// where the operator asks the host regexp for submatches).
+func VpC07OperatorArgsRx() {
+	vpC07OperatorArgs([]string{
+		"@restpath /", "@restpath /a/{", "@validateNid ", "@validateNid cl ", "@validateNid us ", "@rx (?", "@rx [", "@rx a{",
+	})
+}
+
+func vpC07OperatorArgs(pres []string) {
+	pre := pres[vp.Choice("op", len(pres))]
+	n := vp.Choice("len", vp.Param("N", 2)+1)
+	s := vp.String("arg", n)
+	vpC07NoLineBreak(s)
+	for i := 0; i < len(s); i++ {
+		vp.Assume(s[i] != '"')
+	}
+	vpC07Compile("SecRule ARGS|TX:a \""+pre+s+"\" \"id:1,phase:1,pass,capture,setvar:tx.a=1\"", true)
+	vp.Reached("end")
+}
